@@ -702,6 +702,33 @@ impl Scenario for C05 {
                 Some(Case05::Family(items))
             }
         };
+        // two different messages that a 32-bit fingerprint cannot tell apart,
+        // decoded one after the other (with or without something in between)
+        let fam = if wl.chance(1, 6) {
+            let (x, y, _) = crate::collisions::colliding_pair(&mut wl);
+            let o = wl.below(8) as u8;
+            let mk = |m: &SpecMessage, o: u8| Case05::Msg {
+                bytes: spec_encode(m),
+                opts: o,
+                reader: ReaderCfg::Real,
+                dc_seed: 0,
+            };
+            let mut items = vec![mk(&x, o)];
+            if wl.chance(1, 3) {
+                if let Some(Case05::Family(f)) = &fam {
+                    if let Some(it) = f.first() {
+                        items.push(it.clone());
+                    }
+                }
+            }
+            items.push(mk(&y, if wl.chance(3, 4) { o } else { wl.below(8) as u8 }));
+            if wl.bool() {
+                items.push(mk(&x, o));
+            }
+            Some(Case05::Family(items))
+        } else {
+            fam
+        };
         for (k, b) in msgs.into_iter().enumerate() {
             let reader = if sm.chance(1, 3) {
                 ReaderCfg::Real
@@ -819,7 +846,13 @@ pub struct Case10 {
     pub opts: u8,
     /// relay reads through an owning reader (T = Vec<u8>) instead of a slice
     pub owned: bool,
+    /// deliveries the relay handled just before this one, on the same thread
+    #[serde(default)]
+    pub before: Vec<HexB>,
 }
+
+#[derive(Clone, Debug, PartialEq, Eq, Serialize, Deserialize)]
+pub struct HexB(#[serde(with = "hexser")] pub Vec<u8>);
 
 fn relay<T: Borrow<[u8]>>(m: &Message<T>, bytes: &[u8], opts: Opts, obs: &mut Obs) -> Result<(), Failure> {
     let cls = class05(bytes);
@@ -911,6 +944,35 @@ fn relay<T: Borrow<[u8]>>(m: &Message<T>, bytes: &[u8], opts: Opts, obs: &mut Ob
 }
 
 fn exec_c10(case: &Case10, obs: &mut Obs) -> Result<(), Failure> {
+    if !case.before.is_empty() {
+        // a relay's thread has a past: the earlier deliveries first (their
+        // own verdicts belong to their own cases), then this one
+        obs.count("probe:relay-with-earlier-deliveries");
+        return on_fresh_thread(|| {
+            for HexB(b) in &case.before {
+                let _ = exec_c10(
+                    &Case10 {
+                        bytes: b.clone(),
+                        opts: case.opts,
+                        owned: false,
+                        before: Vec::new(),
+                    },
+                    obs,
+                );
+            }
+            exec_c10(
+                &Case10 {
+                    before: Vec::new(),
+                    ..case.clone()
+                },
+                obs,
+            )
+            .map_err(|mut f| {
+                f.detail = format!("after {} earlier deliveries on the relay's thread: {}", case.before.len(), f.detail);
+                f
+            })
+        });
+    }
     let b = &case.bytes;
     if b.len() < 2 {
         return Ok(());
@@ -1043,6 +1105,7 @@ impl Scenario for C10 {
                 bytes: b,
                 opts: opts.index(),
                 owned: wl.bool(),
+                before: Vec::new(),
             };
             if ctx.run == 0 && k < 2 {
                 let c2 = case.clone();
@@ -1050,12 +1113,40 @@ impl Scenario for C10 {
             }
             ctx.check::<C10>(&case);
         }
+        // a delivery whose canonical re-encoding a 32-bit fingerprint cannot
+        // tell from an earlier delivery on the same relay thread
+        if wl.chance(1, 3) {
+            let (x, y, _) = crate::collisions::colliding_pair(&mut wl);
+            // the later one arrives non-canonical (M bits clear, reserved AVP
+            // flag bits): its re-encoding is the canonical y
+            let tape: Vec<u8> = (0..40).map(|i| if i < 3 { 0 } else if i % 2 == 1 { wl.u8() & 0x3C } else { 0 }).collect();
+            let mut k = Knobs::new(&tape);
+            let later = spec_encode_with(&y, &mut k, Opts::from_index(0));
+            let mut before = vec![HexB(spec_encode(&x))];
+            if wl.chance(1, 3) {
+                before.push(HexB(spec_encode(&gen_control(&mut wl, &sw, 200))));
+            }
+            ctx.check::<C10>(&Case10 {
+                bytes: later,
+                opts: 0,
+                owned: false,
+                before,
+            });
+        }
     }
     fn execute(case: &Case10, obs: &mut Obs) -> Result<(), Failure> {
         exec_c10(case, obs)
     }
     fn shrink(case: &Case10) -> Vec<Case10> {
         let mut out = Vec::new();
+        for i in 0..case.before.len() {
+            let mut b = case.before.clone();
+            b.remove(i);
+            out.push(Case10 {
+                before: b,
+                ..case.clone()
+            });
+        }
         if case.owned {
             out.push(Case10 {
                 owned: false,
